@@ -175,9 +175,7 @@ pub fn make_body(i: usize, steps: Vec<J>, panics: bool, value: usize, who: fn() 
             r[i].end_ns = Some(now());
             r[i].finished = true;
         }
-        if let Some(co) = open_coroutine_core::scheduler::SchedulableCoroutine::current() {
-            _ = co.put("vtask", usize::MAX);
-        }
+
         if panics {
             probe("task.panic");
             panic!("task {i} panics on purpose");
@@ -347,6 +345,8 @@ fn body_pool(plan: &J) {
     let min = plan.gus("min").min(max);
     let keep_alive = plan.gu("keep_alive_ns");
     let pool: &'static mut CoroutinePool<'static> = Box::leak(Box::new(CoroutinePool::new("pool-under-test".into(), 64 * 1024, min, max, keep_alive)));
+    spy_reset(plan.ga("tasks").len());
+    pool.add_listener(CancelSpy);
     let pool_ptr = Sh(std::ptr::from_mut(pool));
     let shared: Sh<&'static CoroutinePool<'static>> = Sh(unsafe { &*pool_ptr.0 });
     let ordered_mode = plan.gb("ordered_mode");
@@ -405,7 +405,7 @@ fn body_pool(plan: &J) {
                         let epoch_before = PASS_EPOCH.load(SeqCst);
                         let quiet_before = !IN_PASS.load(SeqCst);
                         let started_before = recs()[ti].starts > 0;
-                        CoroutinePool::try_cancel_task(id);
+                        cancel_with_probe(ti, || CoroutinePool::try_cancel_task(id));
                         probe("task.cancel");
                         let quiet_after = !IN_PASS.load(SeqCst);
                         let mut rr = recs();
@@ -592,7 +592,11 @@ fn body_pool(plan: &J) {
                 .unwrap_or(0);
             let limit = t_stop.max(latest_deadline) + 1_000_000_000;
             if now() > limit && now() > t_stop + 7_000_000_000 {
-                let desc: Vec<String> = pending.iter().map(|x| format!("task {} ({})", x.task, if x.timeout_ms == u64::MAX { "no timeout".to_string() } else { format!("timeout {} ms", x.timeout_ms) })).collect();
+                let snap = recs().clone();
+                let desc: Vec<String> = pending
+                    .iter()
+                    .map(|x| format!("task {} ({}; starts={} finished={} cancel calls={})", x.task, if x.timeout_ms == u64::MAX { "no timeout".to_string() } else { format!("timeout {} ms", x.timeout_ms) }, snap[x.task].starts, snap[x.task].finished, snap[x.task].cancel_calls))
+                    .collect();
                 fail("waiter-stuck", format!("user thread {ui} (t{tid:?}) is still blocked {} ms after stop() returned and past every timed wait's deadline; unreturned waits: {desc:?}", (now() - t_stop) / 1_000_000));
             }
             vstd::thread::sleep(Duration::from_millis(5));
@@ -829,6 +833,38 @@ fn hooked_sleep_us(us: u64) {
 #[derive(Clone, Debug)]
 struct CancelSpy;
 
+/// task -> (thread whose scheduler parked its coroutine, another coroutine has run on that thread since)
+static PARKED: StdMutex<Vec<(Option<String>, bool)>> = StdMutex::new(Vec::new());
+
+fn spy_reset(n: usize) {
+    let mut p = PARKED.lock().unwrap_or_else(|e| e.into_inner());
+    p.clear();
+    p.resize(n, (None, false));
+}
+
+/// A cancel request for task `ti` is about to be made. `true` if its coroutine is certainly parked:
+/// it was suspended and its thread has run another coroutine since, so the scheduler cannot list it
+/// as running any more.
+fn certainly_parked(ti: usize) -> bool {
+    let started_unfinished = {
+        let r = recs();
+        ti < r.len() && r[ti].starts > 0 && !r[ti].finished
+    };
+    let p = PARKED.lock().unwrap_or_else(|e| e.into_inner());
+    started_unfinished && p.get(ti).is_some_and(|e| e.0.is_some() && e.1)
+}
+
+/// Wraps a cancel call: a request that goes down the signal path although its target is certainly
+/// parked can only hit somebody else.
+fn cancel_with_probe(ti: usize, f: impl FnOnce()) {
+    let parked = certainly_parked(ti);
+    let sent_before = sim::counter("signal.sent");
+    f();
+    if parked && sim::counter("signal.sent") > sent_before {
+        sim::count("cause.rt.signal-for-parked-task");
+    }
+}
+
 impl open_coroutine_core::coroutine::listener::Listener<(), Option<usize>> for CancelSpy {
     fn on_state_changed(
         &self,
@@ -836,11 +872,45 @@ impl open_coroutine_core::coroutine::listener::Listener<(), Option<usize>> for C
         _: open_coroutine_core::scheduler::SchedulableCoroutineState,
         new: open_coroutine_core::scheduler::SchedulableCoroutineState,
     ) {
+        {
+            use open_coroutine_core::common::constants::{CoroutineState, SyscallState};
+            let me = std::thread::current().name().unwrap_or("?").to_string();
+            let tag = local.get::<usize>("vtask").copied();
+            let mut p = PARKED.lock().unwrap_or_else(|e| e.into_inner());
+            match new {
+                CoroutineState::Running => {
+                    // whoever was parked by this thread has been left behind by now
+                    for (i, e) in p.iter_mut().enumerate() {
+                        if Some(i) != tag && e.0.as_deref() == Some(me.as_str()) {
+                            e.1 = true;
+                        }
+                    }
+                    if let Some(i) = tag {
+                        if let Some(e) = p.get_mut(i) {
+                            *e = (None, false);
+                        }
+                    }
+                }
+                CoroutineState::Suspend(..) | CoroutineState::Syscall((), _, SyscallState::Suspend(_)) => {
+                    if let Some(i) = tag {
+                        if let Some(e) = p.get_mut(i) {
+                            *e = (Some(me), false);
+                        }
+                    }
+                }
+                _ => {}
+            }
+        }
         if let open_coroutine_core::common::constants::CoroutineState::Cancelled = new {
             if let Some(i) = local.get::<usize>("vtask").copied() {
                 let r = recs();
                 if i < r.len() && r[i].cancel_calls == 0 && !r[i].finished {
                     sim::count("cause.rt.cancel-hit-other-task");
+                }
+                if i < r.len() && r[i].finished {
+                    // the body of the task had returned: the signal caught the worker in the pool's
+                    // own bookkeeping (storing the result, notifying the waiter) or idle
+                    sim::count("cause.rt.cancel-after-task-body");
                 }
             }
         }
@@ -874,6 +944,7 @@ fn body_rt(plan: &J) {
     }
     let cfg = Config::new(loops, 64 * 1024, min, max, plan.gu("keep_alive_ns"), 0, 0, true);
     EventLoops::init(&cfg);
+    spy_reset(tasks.len());
     EventLoops::verif_add_listener(CancelSpy);
     let nusers = plan.ga("users").len();
     let users_done = std::sync::Arc::new(std::sync::atomic::AtomicUsize::new(0));
@@ -926,7 +997,7 @@ fn body_rt(plan: &J) {
                     "cancel" => {
                         let id = recs()[ti].id;
                         let unsubmitted = recs()[ti].submit_ok.is_none();
-                        EventLoops::try_cancel_task(id);
+                        cancel_with_probe(ti, || EventLoops::try_cancel_task(id));
                         probe("task.cancel");
                         let mut rr = recs();
                         rr[ti].cancel_calls += 1;
